@@ -34,6 +34,8 @@ for n in range(1, 21):
     opens, fixed = findings(prop)
     sec = sec.replace("{{OPEN:%s}}" % prop, short(opens, prop) or "–")
     sec = sec.replace("{{FIXED:%s}}" % prop, "; ".join(f"{short(v, prop)} {k}" for k, v in fixed.items()) or "–")
+nfix = subprocess.run("git -C /repo log --oneline | grep -c ' fix:'", shell=True, stdout=subprocess.PIPE, text=True).stdout.strip()
+sec = sec.replace("{{NFIX}}", nfix)
 sec = sec.replace("SEEDED_TABLE", "<!-- SEEDED_TABLE_BEGIN -->\n" + table + "<!-- SEEDED_TABLE_END -->\n")
 marker = "---------------------------------------------------------------------------------------------------\n\n## 1. What is being built"
 i, j = d.index("## 0. As built"), d.index(marker)
